@@ -72,6 +72,6 @@ EmitAs(prop) ==
   VTerminal =>
     PrintT(<<"SCN", ToJson(
       [m |-> "VERIFY", prop |-> prop, scn |-> ScnJ, out |-> verdict, stage |-> why.stage,
-       allow |-> SetToSeq(Allowed), mustnot |-> SetToSeq(MustNotRun),
+       allow |-> SetToSeq(Allowed), mustnot |-> SetToSeq(MustNotRun), failing |-> SetToSeq(FailingInspections),
        ran |-> ran, written |-> SetToSeq(written), sum |-> SumJ(summary)])>>)
 =============================================================================
